@@ -12,7 +12,7 @@ import (
 // workflow; C16: wiring check and RunTo closure.
 
 var profC08 = Profile{
-	MaxProcs: 4, MaxItems: 6, Bufsizes: []int{0, 1, 2, 3}, MaxSlots: 8,
+	MaxProcs: 4, MaxItems: 6, LongStreams: []int{40}, Bufsizes: []int{0, 1, 2, 3}, MaxSlots: 8,
 	MultiOut: true, FanIn: true, FanOut: true, Params: true, Zip: true, TwoSources: true, Custom: true,
 }
 
@@ -120,6 +120,12 @@ func init() {
 		Rule: "one case = one generated workflow with pass-through recorder components (public component API) on the out-port edges of every command process, 1..8 slots and command durations over 6 orders of magnitude so that later tasks often finish first (probe task-finished-out-of-order); the recorded sequence of every edge must equal the order in which the producing input sets were received (reference order for single-upstream ports, per-upstream projection for fan-in). distinct = event-log hash; non-trivial = >=2 tasks and >=1 non-default choice",
 		Run: func(c *Case) Verdict {
 			var w *WF
+			switch c.Tape.Choose(simrt.StGen, 8, 0) {
+			case 2:
+				return multiSubOrderCase(c)
+			case 3:
+				return splitterOrderCase(c)
+			}
 			mixed := c.Tape.Choose(simrt.StGen, 5, 0) == 1
 			if mixed {
 				// a process with a streaming AND an ordinary out-port: the ordinary
@@ -530,4 +536,97 @@ func paramChainRunToCase(c *Case) Verdict {
 		}
 	}
 	return flowOracle(inc, ex)
+}
+
+// multiSubOrderCase: a joining process that receives SEVERAL sub-stream
+// carriers; an earlier carrier's sub-stream may close later than a later
+// one's. Its outputs must still leave in the order the carriers arrived.
+func multiSubOrderCase(c *Case) Verdict {
+	t := c.Tape
+	w := &WF{Name: "wf", Sources: map[string]string{}}
+	k := 2 + t.Choose(simrt.StGen, 2, 0)
+	ports := []string{"a", "b", "c"}
+	ms := Node{Name: "msub", Kind: KMultiSub, Outs: []OutSpec{{Name: "out"}}}
+	var grp []string
+	for i := 0; i < k; i++ {
+		e := Edge{srcNode(w, "src"+ports[i], 1+t.Choose(simrt.StGen, 3, 0), ""), "out"}
+		if t.Choose(simrt.StGen, 2, 0) == 1 {
+			e = Edge{oneToOne(w, "pre"+ports[i], e), "o0"}
+		}
+		ms.Ins = append(ms.Ins, InSpec{Name: ports[i], From: []Edge{e}})
+		grp = append(grp, fmt.Sprintf("g%d", i))
+	}
+	mi := addNode(w, ms)
+	addNode(w, Node{Name: "join", Kind: KProc, Cores: 1, Rec: true,
+		Ins:    []InSpec{{Name: "x", From: []Edge{{mi, "out"}}, Join: true, Sep: ","}},
+		Params: []ParamSpec{{Name: "g", Vals: grp}},
+		Outs:   []OutSpec{{Name: "o0", Pattern: "joined.{p:g}.join.o0"}}})
+	w.MaxTasks = 2 + t.Choose(simrt.StGen, 4, 0)
+	w.Bufsize = bufsizeOf(t)
+	c.Sample = "several sub-stream carriers: " + sample(w)
+	ex := Eval(w)
+	inc := RunInc(w, c.Tape, nil, 0, IncOpts{KillAt: -1, Strategy: strategyOf(c.Tape), Trace: c.Trace})
+	c.Absorb(inc)
+	outOfOrderProbe(c, inc)
+	if v := flowOracle(inc, ex); v.Status != "ok" {
+		return foreign(v)
+	}
+	return orderOracle(inc, ex)
+}
+
+// splitterOrderCase: a FileSplitter that receives several files: the parts
+// leave in the order of the input files, and in ascending order within a file.
+func splitterOrderCase(c *Case) Verdict {
+	t := c.Tape
+	w := &WF{Name: "wf", Sources: map[string]string{}}
+	src := Node{Name: "src0", Kind: KFileSrc}
+	nf := 2 + t.Choose(simrt.StGen, 2, 0)
+	for i := 0; i < nf; i++ {
+		p := fmt.Sprintf("lines%d.txt", i)
+		var b strings.Builder
+		for l := 0; l < 1+t.Choose(simrt.StGen, 7, 0); l++ {
+			fmt.Fprintf(&b, "file %d line %d\n", i, l)
+		}
+		src.Files = append(src.Files, p)
+		w.Sources[p] = b.String()
+	}
+	s := addNode(w, src)
+	sp := addNode(w, Node{Name: "split", Kind: KSplitter, SplitLines: 1 + t.Choose(simrt.StGen, 2, 0), Rec: true,
+		Ins: []InSpec{{Name: "file", From: []Edge{{s, "out"}}}}, Outs: []OutSpec{{Name: "split_file"}}})
+	oneToOne(w, "use", Edge{sp, "split_file"})
+	w.MaxTasks = 1 + t.Choose(simrt.StGen, 4, 0)
+	w.Bufsize = bufsizeOf(t)
+	c.Sample = "FileSplitter with several files: " + sample(w)
+	inc := RunInc(w, c.Tape, nil, 0, IncOpts{KillAt: -1, Strategy: strategyOf(c.Tape), Trace: c.Trace})
+	c.Absorb(inc)
+	c.Tasks = max(c.Tasks, 2)
+	if v, ok := inconclusiveEnd(inc); ok {
+		return v
+	}
+	if !completedOK(inc) {
+		return Skipped(Viol("no-completion", "", "%s", endDesc(inc)))
+	}
+	rec := inc.RT.Recorded[recKey("split", "split_file", "use", "a")]
+	fileIdx := map[string]int{}
+	for i, f := range src.Files {
+		fileIdx[f] = i
+	}
+	lastFile, lastPart := -1, 0
+	for _, p := range rec {
+		i := strings.LastIndex(p, ".split_")
+		if i < 0 {
+			continue
+		}
+		fi, ok := fileIdx[p[:i]]
+		part := 0
+		fmt.Sscanf(p[i+len(".split_"):], "%d", &part)
+		if !ok {
+			continue
+		}
+		if fi < lastFile || (fi == lastFile && part <= lastPart) {
+			return Viol("out-of-order", "", "FileSplitter emitted its parts as %v although the files arrived as %v", rec, src.Files)
+		}
+		lastFile, lastPart = fi, part
+	}
+	return OK()
 }
